@@ -91,8 +91,16 @@ pub enum Shape {
     Filter { src: Src, cond: Option<Cond>, emit: Emit },
     Agg { src: Src, partition: bool, win: Win, having: Option<i64> },
     Seq { pat: Pat },
-    /// `join(L, R).on(L.k == R.k).window(Ws)`
-    Join { l: String, r: String, win_s: u32 },
+    /// `join(L, R).on(L.k == R.k).window(Ws)` with or without `.emit(..)`
+    Join {
+        l: String,
+        r: String,
+        win_s: u32,
+        #[serde(default = "yes")]
+        emit: bool,
+    },
+    /// a stream derived from a join stream: `stream Sx = Sj .emit(tag: 1)`
+    JoinDerived { join: usize },
     Distinct { src: Src },
     Limit { src: Src, n: u32 },
 }
@@ -100,6 +108,10 @@ pub enum Shape {
 #[derive(Clone, Debug, PartialEq, Serialize, Deserialize)]
 pub struct Prog {
     pub streams: Vec<Shape>,
+}
+
+fn yes() -> bool {
+    true
 }
 
 pub fn sname(i: usize) -> String {
@@ -116,6 +128,16 @@ impl Shape {
             _ => None,
         }
     }
+    /// index of the stream this stream is derived from, if any
+    pub fn upstream(&self) -> Option<usize> {
+        match self {
+            Shape::JoinDerived { join } => Some(*join),
+            other => match other.src() {
+                Some(Src::Stream(i)) => Some(*i),
+                _ => None,
+            },
+        }
+    }
     pub fn kind(&self) -> String {
         match self {
             Shape::Filter { emit: Emit::None, .. } => "filter_noemit".into(),
@@ -130,13 +152,15 @@ impl Shape {
                     "seq".into()
                 }
             }
-            Shape::Join { .. } => "join".into(),
+            Shape::Join { emit: true, .. } => "join".into(),
+            Shape::Join { emit: false, .. } => "join_noemit".into(),
+            Shape::JoinDerived { .. } => "join_derived".into(),
             Shape::Distinct { .. } => "distinct".into(),
             Shape::Limit { .. } => "limit".into(),
         }
     }
     pub fn stateful(&self) -> bool {
-        !matches!(self, Shape::Filter { .. })
+        !matches!(self, Shape::Filter { .. } | Shape::JoinDerived { .. })
     }
 }
 
@@ -177,10 +201,14 @@ impl Prog {
                 s
             }
             Shape::Seq { pat } => pat.render(&name),
-            Shape::Join { l, r, win_s } => format!(
-                "stream {} = join({}, {})\n    .on({}.k == {}.k)\n    .window({}s)\n    .emit(lid: {}.id, rid: {}.id, lv: {}.v, rv: {}.v)\n",
-                name, l, r, l, r, win_s, l, r, l, r
-            ),
+            Shape::Join { l, r, win_s, emit } => {
+                let mut s = format!("stream {} = join({}, {})\n    .on({}.k == {}.k)\n    .window({}s)\n", name, l, r, l, r, win_s);
+                if *emit {
+                    s.push_str(&format!("    .emit(lid: {}.id, rid: {}.id, lv: {}.v, rv: {}.v)\n", l, r, l, r));
+                }
+                s
+            }
+            Shape::JoinDerived { join } => format!("stream {} = {}\n    .emit(tag: 1)\n", name, sname(*join)),
             Shape::Distinct { src } => format!("stream {} = {}\n    .distinct(v)\n    .emit(id: id, k: k, v: v, s: s)\n", name, src_text(src)),
             Shape::Limit { src, n } => format!("stream {} = {}\n    .limit({})\n    .emit(id: id, k: k, v: v, s: s)\n", name, src_text(src), n),
         }
@@ -189,7 +217,7 @@ impl Prog {
         (0..self.streams.len()).map(|i| self.render_stream(i)).collect::<Vec<_>>().join("\n")
     }
     pub fn has_derived(&self) -> bool {
-        self.streams.iter().any(|s| matches!(s.src(), Some(Src::Stream(_))))
+        self.streams.iter().any(|s| matches!(s.src(), Some(Src::Stream(_))) || matches!(s, Shape::JoinDerived { .. }))
     }
     pub fn has_join(&self) -> bool {
         self.streams.iter().any(|s| matches!(s, Shape::Join { .. }))
@@ -238,11 +266,13 @@ pub struct ProgOpts {
     pub windows: bool,
     pub distinct_limit: bool,
     pub noemit: bool,
+    /// joins without emit and streams derived from joins
+    pub join_derived: bool,
 }
 
 impl ProgOpts {
     pub fn full() -> ProgOpts {
-        ProgOpts { max_streams: 4, joins: true, seqs: true, seq_not: true, seq_all: true, windows: true, distinct_limit: true, noemit: true }
+        ProgOpts { max_streams: 4, joins: true, seqs: true, seq_not: true, seq_all: true, windows: true, distinct_limit: true, noemit: true, join_derived: true }
     }
 }
 
@@ -324,13 +354,18 @@ pub fn prog(o: ProgOpts) -> BoxedStrategy<Prog> {
                         if rr == l {
                             rr = BASE_TYPES[(r.r + 1) % 3].to_string();
                         }
-                        Shape::Join { l, r: rr, win_s: r.win_s }
+                        Shape::Join { l, r: rr, win_s: r.win_s, emit: !(o.join_derived && r.emit < 3) }
                     }
                     10 if o.distinct_limit => Shape::Distinct { src },
                     11 if o.distinct_limit => Shape::Limit { src, n: r.n },
                     _ => Shape::Filter { src, cond: r.cond, emit: Emit::Pass },
                 };
+                let is_join = matches!(shape, Shape::Join { .. });
                 streams.push(shape);
+                if is_join && o.join_derived && r.derived && streams.len() < o.max_streams + 1 {
+                    let j = streams.len() - 1;
+                    streams.push(Shape::JoinDerived { join: j });
+                }
             }
             Prog { streams }
         })
